@@ -100,3 +100,52 @@ def pick(x, lo, hi):
         if x == v:
             return v
     raise AssertionError("pick: value outside its window")
+
+
+# ---- execution of transpiled code in a namespace built like main.execute_vyxal's -------------------
+with NoTracing():
+    BASE_NS = dict(vars(M))
+
+
+def fresh_ns(ctx, stack):
+    with NoTracing():
+        ns = dict(BASE_NS)
+    ns["ctx"] = ctx
+    ns["stack"] = stack
+    return ns
+
+
+def no_stdin(*a, **k):
+    raise EOFError("no STDIN (Input.md: then all input is 0)")
+
+
+H.__dict__["input"] = no_stdin  # stub: STDIN absent
+
+
+class InputLog:
+    """Wraps helpers.get_input: logs every value actually delivered as ('T'|'S', scope depth, value)."""
+
+    def __init__(self):
+        self.log = []
+        self.real = H.get_input
+
+    def __enter__(self):
+        real, log = self.real, self.log
+
+        def get_input(ctx):
+            depth, top = len(ctx.inputs), ctx.use_top_input
+            delegates = (not top) and depth == 1 and not ctx.inputs[0][0]  # the real function re-enters with use_top_input
+            ret = real(ctx)
+            if top or (depth == 1 and not delegates):
+                log.append(("T", depth, ret))
+            elif depth > 1:
+                log.append(("S", depth, ret))
+            return ret
+
+        self.wrapper = get_input
+        H.get_input = get_input
+        return self
+
+    def __exit__(self, *a):
+        H.get_input = self.real
+        return False
